@@ -1456,6 +1456,17 @@ class Evaluator:
         if r is not None:
             return r
         it = self.ev(st.iter, live)
+        if it[0] == "call" and it[1][0] == "attr" and it[1][2] in ("items", "keys", "values") and not it[2] and not it[3] and it[1][1][0] == "global" \
+                and it[1][1][2] == "assign":
+            # a loop over the rows of a module-level table with constant keys that nothing mutates: the display of its rows
+            try:
+                m_, node_ = self.index.need_assign(*it[1][1][1].split(":"))
+            except (AnalysisError, ValueError):
+                node_ = None
+            ks_ = self._table_keys(it[1][1]) if isinstance(node_, ast.Dict) else None
+            rows_ = self._table_rows(it[1][1], m_, node_, ks_) if ks_ is not None else None
+            if rows_ is not None:
+                it = ("tuple", tuple(("tuple", (k_, v_)) if it[1][2] == "items" else (k_ if it[1][2] == "keys" else v_) for k_, v_ in rows_))
         # a loop over a display of known elements is the sequence of its iterations (table-driven code)
         if it[0] in ("tuple", "list") and 0 < len(it[1]) <= 32 and not any(x[0] == "star" for x in it[1]) and not st.orelse \
                 and not any(isinstance(n_, (ast.Break, ast.Continue)) for b_ in st.body for n_ in ast.walk(b_)):
@@ -1949,7 +1960,7 @@ class Evaluator:
     def e_List(self, n, live):
         if len(n.elts) == 1 and isinstance(n.elts[0], ast.Starred) and "list" not in self.env:
             return ("call", ("builtin", "list"), (self.ev(n.elts[0].value, live),), ())  # [*xs] is list(xs)
-        return ("list", tuple(self.ev(e, live) for e in n.elts))
+        return _splice_stars(("list", tuple(self.ev(e, live) for e in n.elts)))
 
     def e_Set(self, n, live):
         return ("set", tuple(self.ev(e, live) for e in n.elts))
@@ -1983,6 +1994,8 @@ class Evaluator:
         r = self.ev(n.right, live)
         if isinstance(n.op, ast.Add) and l[0] == "const" and r[0] == "const" and isinstance(l[1], str) and isinstance(r[1], str):
             return ("const", l[1] + r[1])  # "onset" + "_sample"
+        if isinstance(n.op, ast.Add) and l[0] == "list" and r[0] == "list":
+            return ("list", l[1] + r[1])
         if isinstance(n.op, (ast.Add, ast.Sub, ast.Mult)) and l[0] == "const" and r[0] == "const" \
                 and all(isinstance(x[1], int) and not isinstance(x[1], bool) for x in (l, r)):
             return fold_sub(("bin", BIN_AST[type(n.op)], l, r))
@@ -2004,6 +2017,11 @@ class Evaluator:
         parts = []
         for op, comp in zip(n.ops, n.comparators):
             right = self.ev(comp, live)
+            if isinstance(op, (ast.In, ast.NotIn)) and right[0] == "global" and right[2] == "assign":
+                # membership in a module-level table with constant keys that nothing mutates: membership in the display of its keys
+                ks = self._table_keys(right, dict_only=True)
+                if ks is not None:
+                    right = ("tuple", tuple(ks))
             c = mk_cmp(CMP_AST[type(op)], left, right)
             if c[1] in ("is", "isnot") and NONE in (c[2], c[3]):
                 other = c[3] if c[2] == NONE else c[2]
@@ -2330,8 +2348,18 @@ class Evaluator:
             self.index.__dict__["_mutated_globals"] = cache
         if g[1] in cache:
             return None
+        rows = self._table_rows(g, m, node, keys)
+        if rows is None:
+            return None
         v = default
-        for kc, vn in reversed(list(zip(keys, node.values))):
+        for kc, val in reversed(rows):
+            v = ITE(mk_cmp("eq", key, kc), val, v)
+        return v
+
+    def _table_rows(self, g, m, node, keys):
+        """[(constant key, value term)] of a module-level dict display, in its order; None when a value cannot be read"""
+        rows = []
+        for kc, vn in zip(keys, node.values):
             sy = self.index.resolve_expr(m, vn) if isinstance(vn, (ast.Name, ast.Attribute)) else None
             if sy is not None:
                 val = sym_term(sy)
@@ -2356,8 +2384,23 @@ class Evaluator:
                     return None
                 if any(x[0] in ("unbound", "unknown", "alloc") for x in walk(val)) or any(e.kind != "call" for e in sub.events[mark:]):
                     return None
-            v = ITE(mk_cmp("eq", key, kc), val, v)
-        return v
+            rows.append((kc, val))
+        return rows
+
+    def _table_keys(self, g, dict_only=False):
+        """the constant keys of a module-level dict display (or the constant items of a tuple / list / set display) that nothing mutates"""
+        try:
+            modname, name = g[1].split(":")
+            m, node = self.index.need_assign(modname, name)
+        except (AnalysisError, ValueError):
+            return None
+        if len(m.defs.get(name, [])) != 1 or g[1] in self._mutated_globals():
+            return None
+        items = node.keys if isinstance(node, ast.Dict) else (node.elts if isinstance(node, (ast.Tuple, ast.List, ast.Set)) and not dict_only else None)
+        if not items:
+            return None
+        ks = [self._const_key(m, k) if k is not None else None for k in items]
+        return None if any(k is None for k in ks) else ks
 
     def _mutated_globals(self):
         """module-level names that some code mutates: `G[...] = `, `del G[...]`, `G.<mutator>(...)` anywhere in the package"""
@@ -2810,6 +2853,27 @@ class Evaluator:
             parts = self._format_parts(f[1][1], args, dict(named))
             if parts is not None:
                 return ("fstr", tuple(parts))
+        # shapely.centroid(x) is x.centroid
+        if f == ("ext", "shapely.centroid") and plain and len(args) == 1:
+            return ("attr", args[0], "centroid")
+        # typing.get_args(Alias) of a module-level `Alias = Literal[...]` is the tuple of its values
+        if f in (("ext", "typing.get_args"), ("ext", "typing_extensions.get_args")) and plain and len(args) == 1 and args[0][0] == "global" and args[0][2] == "assign":
+            try:
+                m_, node_ = self.index.need_assign(*args[0][1].split(":"))
+            except (AnalysisError, ValueError):
+                node_ = None
+            if isinstance(node_, ast.Subscript) and ast.unparse(node_.value).split(".")[-1] == "Literal":
+                elts_ = node_.slice.elts if isinstance(node_.slice, ast.Tuple) else [node_.slice]
+                if all(isinstance(x_, ast.Constant) for x_ in elts_):
+                    return ("tuple", tuple(("const", x_.value) for x_ in elts_))
+        # Cls.geom_type() of a geometry class is its type tag (BaseGeometry.geom_type returns the default of the `type` field: R03.1)
+        if f[0] == "attr" and f[2] == "geom_type" and f[1][0] == "global" and f[1][2] == "class" and plain and not args:
+            ci_ = self.index.class_by_qual(f[1][1])
+            for c_ in (ci_.mro() if ci_ is not None else ()):
+                for st_ in c_.node.body:
+                    if isinstance(st_, ast.AnnAssign) and isinstance(st_.target, ast.Name) and st_.target.id == "type" and isinstance(st_.value, ast.Constant) \
+                            and isinstance(st_.value.value, str):
+                        return ("const", st_.value.value)
         # ":".join(["a", str(x), str(y)]) over a display of constants and str(...) items is the f-string f"a:{x}:{y}"
         if f[0] == "attr" and f[2] == "join" and f[1][0] == "const" and isinstance(f[1][1], str) and plain and len(args) == 1 \
                 and args[0][0] in ("list", "tuple") and args[0][1] and all(
@@ -3934,6 +3998,19 @@ def _ite_of_displays(t):
 NOT_NONE_GLOBALS = set()
 
 
+def _splice_stars(t):
+    """[*[a, b], c] is [a, b, c]"""
+    if t[0] in ("list", "tuple") and any(x[0] == "star" and x[1][0] in ("list", "tuple") for x in t[1]):
+        out = []
+        for x in t[1]:
+            if x[0] == "star" and x[1][0] in ("list", "tuple"):
+                out += list(x[1][1])
+            else:
+                out.append(x)
+        return _splice_stars((t[0], tuple(out)))
+    return t
+
+
 def fold_sub(t):
     """`(a, b)[0]` -> a and `getattr(x, "name")` -> x.name after a substitution made the container / name explicit."""
     if not isinstance(t, tuple) or not t:
@@ -3948,6 +4025,12 @@ def fold_sub(t):
         return FALSE if t[1] == "is" else TRUE
     if t and t[0] == "ite" and len(t) == 4 and t[1] in (TRUE, FALSE):
         return t[2] if t[1] == TRUE else t[3]
+    if t and t[0] in ("list", "tuple") and len(t) == 2 and isinstance(t[1], tuple) and any(isinstance(x, tuple) and x and x[0] == "star" for x in t[1]):
+        t = _splice_stars(t)
+    if t and t[0] == "bin" and t[1] == "+" and t[2][0] == "list" and t[3][0] == "list":
+        return ("list", t[2][1] + t[3][1])  # [a] + [b] is [a, b]
+    if t and t[0] == "call" and t[1] == ("ext", "shapely.centroid") and len(t[2]) == 1 and not t[3]:
+        return ("attr", t[2][0], "centroid")  # (a function picked from a table and applied: the same normal form as in a direct call)
     if t and t[0] in ("and", "or") and len(t) == 2 and any(x in (TRUE, FALSE) for x in t[1]):
         # a test decided by the substitution (`lower is not None` with lower=0): the connective is rebuilt without it
         return fold_sub(AND(*t[1]) if t[0] == "and" else OR(*t[1]))
